@@ -148,6 +148,12 @@ def run(check):
         same_ident_part(check)
     if not check.has_failing():
         emptied_variants_part(check)
+    if not check.has_failing():
+        check.rule += ("; own-names part: programs of 4-8 annotated items of every kind next to un-annotated ones, under type_mappings "
+                       "tables whose keys are names of the program itself (Rust names of one / several / all annotated items, serde names, "
+                       "un-annotated items, near misses, compound spellings, member names), in-process and through the binary with a "
+                       "typeshare.toml: one definition per annotated item, none for the others")
+        own_names_config_part(check)
     # the human-written corpus (core/data/tests/*/input.rs, corpus/handwritten/*.rs) and token-level mutants of it: the
     # whole pipeline of the real code against the model fed by the translator, all six languages
     check.rule += ("; corpus part: every snapshot-test input of the repository and every hand-written input (whole and item by "
@@ -501,6 +507,340 @@ def emptied_variants_part(check):
             check.violation("%s: struct variants without fields: generate_types differs from the model: %s" % (lang, d),
                             case={"lang": lang, "source": texts[0]}, impl=ra, model=ma, failing_input=False,
                             broken="correspondence L2 generate (theorems TsV.C03.Capstone run_guarantees_*)")
+            return
+
+
+# ----------------------------------------------------------------------------- configurations that name the program's own items
+
+# names a program gives its own types - among them the ones users typically list in type_mappings because the consumer side has a
+# representation of its own (Uuid, Url, DateTime, Decimal ...).  No name is another name followed by a variant name / `Inner` / `Types`.
+OWN_TYPE_NAMES = ["Uuid", "Url", "DateTime", "Decimal", "AccountId", "Tier", "Account", "Money", "Invoice", "LineItem", "Label",
+                  "Shape", "Point", "Settings", "Status", "Token", "Currency", "Page", "Envelope", "Timestamp"]
+OWN_CONST_NAMES = ["MAX_ITEMS", "LIMIT", "API_VERSION", "RETRIES"]
+OWN_VARIANTS = ["Free", "Paid", "Trial", "Open", "Closed", "Pending", "Small", "Large"]
+OWN_FIELDS = ["id", "name", "value", "count", "owner", "items", "note", "amount"]
+OWN_PRIMS = ["String", "u32", "bool", "i32", "f64", "u8"]
+MAPPED_TO = {
+    "typescript": ["string", "number", "Date", "Uint8Array", "Record<string, unknown>"],
+    "kotlin": ["String", "java.util.UUID", "kotlinx.datetime.Instant", "Long"],
+    "swift": ["String", "UUID", "Date", "Decimal"],
+    "scala": ["String", "java.util.UUID", "BigDecimal"],
+    "go": ["string", "uuid.UUID", "time.Time", "decimal.Decimal"],
+    "python": ["str", "UUID", "datetime", "Decimal"],
+}
+CONST_RX = {"typescript": r"^export const (\w+):", "go": r"^const (\w+) ", "python": r"^(\w+): [^=\n]+ = "}
+NO_CONSTS = ("kotlin", "swift", "scala")      # their write_const refuses: an annotated const is reported, never written
+
+
+def own_names_program(rng):
+    """an abstract file of 4-8 annotated items of every kind (structs, one-field tuple structs, generic structs, unit and tagged
+    enums, aliases, at most one const) that use each other, 0-2 of them serde-renamed, next to 1-2 un-annotated items, in shuffled
+    declaration order, some inside a module.  Every annotated item is generatable (consts aside, in three languages).
+    Returns (file, [dict(kind, rust, written, annotated, members)])"""
+    ts = m_path("typeshare")
+    n = rng.randint(4, 8)
+    names = rng.sample(OWN_TYPE_NAMES, n + rng.randint(1, 2))
+    plain = names[n:]
+    generic, avail, items, meta = set(), [], [], []
+
+    def ty():
+        base = t_path(rng.choice(OWN_PRIMS))
+        if avail and rng.random() < 0.6:
+            nm = rng.choice(avail)
+            base = t_path(nm, [t_path(rng.choice(OWN_PRIMS))]) if nm in generic else t_path(nm)
+        w = rng.random()
+        return t_path("Option", [base]) if w < 0.2 else t_path("Vec", [base]) if w < 0.4 else \
+            t_path("HashMap", [t_path("String"), base]) if w < 0.5 else base
+
+    def fields(k):
+        return ("named", [field([], f, ty()) for f in rng.sample(OWN_FIELDS, k)])
+
+    for nm in plain:
+        # un-annotated items: defined by the program, not shared
+        if rng.random() < 0.5:
+            items.append({"kind": "struct", "attrs": [m_list("derive", [m_path("Debug")])], "ident": nm, "generics": [], "fields": fields(1)})
+        else:
+            items.append({"kind": "enum", "attrs": [], "ident": nm, "generics": [], "variants": [{"attrs": [], "ident": v, "fields": ("unit",)}
+                                                                                               for v in rng.sample(OWN_VARIANTS, 2)]})
+        meta.append(dict(kind="un-annotated", rust=nm, written=nm, annotated=False, members=[]))
+        avail.append(nm)
+    with_const = rng.random() < 0.25
+    for i, nm in enumerate(names[:n]):
+        kind = rng.choices(["struct", "newtype", "unit-enum", "tagged-enum", "alias", "generic-struct"], [30, 17, 16, 17, 14, 6])[0]
+        attrs = [ts]
+        members = []
+        if kind == "tagged-enum":
+            attrs.append(m_list("serde", [m_nv("tag", lit_s("t")), m_nv("content", lit_s("c"))]))
+        written = nm
+        if rng.random() < 0.2:
+            written = nm + rng.choice(["Dto", "V2", "Model"])
+            attrs.append(m_list("serde", [m_nv("rename", lit_s(written))]))
+        if rng.random() < 0.5:
+            attrs.insert(rng.randint(0, len(attrs)), m_list("derive", [m_path("Serialize"), m_path("Deserialize")]))
+        if kind == "struct":
+            fs = fields(rng.randint(1, 3))
+            members = [f["ident"] for f in fs[1]]
+            it = {"kind": "struct", "attrs": attrs, "ident": nm, "generics": [], "fields": fs}
+        elif kind == "generic-struct":
+            it = {"kind": "struct", "attrs": attrs, "ident": nm, "generics": [("ty", "T")],
+                  "fields": ("named", [field([], "items", t_path("Vec", [t_path("T")])), field([], "total", t_path("u32"))])}
+            members = ["items", "total"]
+        elif kind == "newtype":
+            it = {"kind": "struct", "attrs": attrs, "ident": nm, "generics": [], "fields": ("unnamed", [field([], None, ty())])}
+        elif kind == "unit-enum":
+            members = rng.sample(OWN_VARIANTS, rng.randint(2, 3))
+            it = {"kind": "enum", "attrs": attrs, "ident": nm, "generics": [], "variants": [{"attrs": [], "ident": v, "fields": ("unit",)} for v in members]}
+        elif kind == "tagged-enum":
+            members = rng.sample(OWN_VARIANTS, rng.randint(2, 3))
+            shape = lambda: rng.choice([("unit",), ("unnamed", [field([], None, ty())]), fields(1)])
+            shapes = [shape() for _ in members]
+            if all(sh[0] == "unit" for sh in shapes):       # serde's tag / content need a variant with data
+                shapes[rng.randrange(len(shapes))] = fields(1)
+            it = {"kind": "enum", "attrs": attrs, "ident": nm, "generics": [], "variants": [{"attrs": [], "ident": v, "fields": sh} for v, sh in zip(members, shapes)]}
+        else:
+            it = {"kind": "alias", "attrs": attrs, "ident": nm, "generics": [], "ty": ty()}
+        items.append(it)
+        meta.append(dict(kind=kind, rust=nm, written=written, annotated=True, members=members))
+        avail.append(nm)
+        if kind == "generic-struct":
+            generic.add(nm)
+    if with_const:
+        cn = rng.choice(OWN_CONST_NAMES)
+        v = rng.randint(1, 99)
+        items.append({"kind": "const", "attrs": [ts], "ident": cn, "ty": t_path("u32"), "expr_text": str(v), "init": ("i", v, "")})
+        meta.append(dict(kind="const", rust=cn, written=cn, annotated=True, members=[]))
+    rng.shuffle(items)
+    if rng.random() < 0.25 and len(items) > 3:
+        k = rng.randint(1, 2)
+        items = items[k:] + [{"kind": "mod", "attrs": [], "ident": "inner", "items": items[:k]}]
+    return {"attrs": [], "items": items}, meta
+
+
+def own_names_mappings(rng, lang, meta):
+    """a type_mappings table that refers to the program: ({key: value}, [flavour of each key])"""
+    ann = [m for m in meta if m["annotated"]]
+    plain = [m for m in meta if not m["annotated"]]
+    renamed = [m for m in ann if m["written"] != m["rust"]]
+    used = {m["rust"] for m in meta} | {m["written"] for m in meta}
+    tm, flavours = {}, []
+
+    def value(key):
+        r = rng.random()
+        if r < 0.6:
+            return rng.choice(MAPPED_TO[lang])
+        if r < 0.75:
+            return key                                     # the identity mapping
+        if r < 0.9:
+            return rng.choice(ann)["rust"]                 # another item of the program
+        return "Mapped" + re.sub(r"\W", "", key)
+
+    def add(key, flavour):
+        if key not in tm:
+            tm[key] = value(key)
+            flavours.append(flavour)
+
+    r = rng.random()
+    if r < 0.1:
+        for m in ann:                                       # the whole shared program is mapped
+            add(m["rust"], "rust-name-of-" + m["kind"])
+    elif r < 0.8:
+        for m in rng.sample(ann, rng.randint(1, min(3, len(ann)))):
+            add(m["rust"], "rust-name-of-" + m["kind"])
+    if renamed and rng.random() < 0.6:
+        add(rng.choice(renamed)["written"], "serde-name")
+    if rng.random() < 0.3:
+        add(rng.choice(plain)["rust"], "un-annotated-name")
+    if rng.random() < 0.3:
+        add(rng.choice([x for x in OWN_TYPE_NAMES if x not in used]), "foreign-name")
+    if rng.random() < 0.25:
+        nm = rng.choice(ann)["rust"]
+        add(rng.choice([nm.lower(), nm.upper(), nm[:-1], nm + "s", "crate::" + nm, " " + nm]), "near-miss")
+    if rng.random() < 0.25:
+        nm = rng.choice(ann)["rust"]
+        add(rng.choice(["Vec<%s>", "Option<%s>", "HashMap<String,%s>"]) % nm, "compound")
+    members = [x for m in ann for x in m["members"]]
+    if members and rng.random() < 0.2:
+        add(rng.choice(members), "member-name")
+    if not tm:
+        m = rng.choice(ann)
+        add(m["rust"], "rust-name-of-" + m["kind"])
+    return tm, flavours
+
+
+def own_names_judge(lang, meta, text):
+    """the property, read off the generated text: one definition per annotated item (under its Rust or its serde name - whatever
+    name its uses are written under), none for an un-annotated one.  Returns a problem text or None"""
+    import c14
+    found = [next(x for x in (d if isinstance(d, tuple) else (d,)) if x) for d in re.findall(c14.DEF_RX[lang], text, re.M)]
+    squash = lambda s: s.replace("_", "").lower()
+    consts = [squash(c) for c in re.findall(CONST_RX[lang], text, re.M)] if lang in CONST_RX else []
+    for m in meta:
+        if m["kind"] == "const":
+            n = consts.count(squash(m["rust"]))
+        else:
+            n = found.count(m["written"]) + (found.count(m["rust"]) if m["rust"] != m["written"] else 0)
+        if m["annotated"] and n != 1:
+            return "the annotated %s `%s`%s is defined %d time(s) in the output" % (
+                m["kind"], m["rust"], " (serde name `%s`)" % m["written"] if m["written"] != m["rust"] else "", n)
+        if not m["annotated"] and n != 0:
+            return "the un-annotated item `%s` is defined %d time(s) in the output" % (m["rust"], n)
+    return None
+
+
+def toml_of(tables):
+    """typeshare.toml text of {language: {key: value}} type_mappings tables"""
+    out = []
+    for lang, tm in tables.items():
+        out.append("[%s.type_mappings]" % lang)
+        out += ["%s = %s" % (json.dumps(k), json.dumps(v)) for k, v in tm.items()]
+        out.append("")
+    return "\n".join(out)
+
+
+def own_names_cases(rng, per_lang):
+    """per_lang programs with a table for each language; every fourth one is generated in multi-file mode (crate `models`)"""
+    import l2
+    cases = []
+    for idx in range(per_lang * len(LANGS)):
+        lang = LANGS[idx % len(LANGS)]
+        f, meta = own_names_program(rng)
+        tm, flavours = own_names_mappings(rng, lang, meta)
+        multi = idx % 4 == 3
+        cfg = {"package": "proto" if lang == "go" else "com.example", "type_mappings": tm, "version_header": False}
+        g = Gen(rng)
+        mreq, rreq, texts = l2.requests(lang, cfg, [{"crate": "models" if multi else "", "file_name": "out", "path": "src/lib.rs", "file": f}],
+                                        g, multi_file=multi)
+        cases.append(dict(lang=lang, file=f, meta=meta, tm=tm, flavours=flavours, multi=multi, cfg=cfg, mreq=mreq, rreq=rreq, text=texts[0]))
+    return cases
+
+
+def own_names_config_part(check):
+    """configurations that refer to the program's own names: type_mappings tables whose keys are the Rust names of annotated structs /
+    one-field tuple structs / generic structs / unit and tagged enums / aliases / consts of the scanned program (one, several, all of
+    them), their serde(rename) names, names of un-annotated items, near misses (other letter case, a prefix, a plural, a path), compound
+    spellings (`Vec<Own>`, `Option<Own>`, `HashMap<String,Own>`), member names and foreign names, mapped to a target type, to
+    themselves, or to another item of the program - all six languages, in-process (single-file and multi-file mode) and through the
+    binary (typeshare.toml found in an ancestor directory of the working directory, or named with -c; one output file or
+    --output-folder; the tables of the *other* languages name the program's items too).
+    Demanded: a mapping changes how *uses* of a name are written, never which items are shared - every annotated item still has
+    exactly one definition (consts: or an error in the three languages that cannot write them - never exit 0 without it), an
+    un-annotated one none; and the output equals the model's"""
+    import l2
+    cases = own_names_cases(check.rng, 150 if check.thorough else 20)
+    rans = [l2.norm(a) for a in runner([c["rreq"] for c in cases])]
+    for c, ra in zip(cases, rans):
+        lang, meta = c["lang"], c["meta"]
+        check.saw(("own-names-config", lang, json.dumps(c["tm"], sort_keys=True), c["text"]), nontrivial=True)
+        check.count("own-names-config-" + lang)
+        check.count("own-names-config-%s" % ("multi-file" if c["multi"] else "single-file"))
+        for fl in c["flavours"]:
+            check.count("own-names-config-key:" + fl)
+        for k, v in c["tm"].items():
+            check.count("own-names-config-value:" + ("identity" if v == k else "another-item" if any(v == m["rust"] for m in meta) else "target-type"))
+        has_const = any(m["kind"] == "const" for m in meta)
+        case = {"lang": lang, "type_mappings": c["tm"], "source": c["text"], "mode": "multi-file, crate `models`" if c["multi"] else "single file",
+                "typeshare.toml": toml_of({lang: c["tm"]}),
+                "replay": "write `source` to proj/src/lib.rs and `typeshare.toml` into the directory that holds proj, and run there: "
+                          "typeshare %s proj" % " ".join(["--lang", lang] + lang_args(lang) + ["-o", "out." + EXT[lang]])}
+        if "panic" in ra:
+            check.count("own-names-config-answer:panic")
+            continue                    # crashes are C07's business
+        if "ok" not in ra:
+            check.count("own-names-config-answer:" + ("const-refused" if has_const and lang in NO_CONSTS else "error"))
+            continue                    # reported, not silently omitted
+        check.count("own-names-config-answer:ok")
+        out = "\n".join(v for v in ra["ok"].values() if isinstance(v, str))
+        named = [m for m in meta if m["annotated"] and m["rust"] in c["tm"]]
+        if has_const and lang in NO_CONSTS:
+            prob = "the annotated const `%s`, which %s cannot write, is neither written nor reported (the run succeeds)" % (
+                next(m["rust"] for m in meta if m["kind"] == "const"), lang)
+        else:
+            prob = own_names_judge(lang, meta, out)
+        if prob:
+            # a smaller table that still shows it: one key at a time
+            for k in c["tm"]:
+                a1 = l2.norm(runner([dict(c["rreq"], config=dict(c["cfg"], type_mappings={k: c["tm"][k]}))])[0])
+                if "ok" in a1:
+                    out1 = "\n".join(v for v in a1["ok"].values() if isinstance(v, str))
+                    prob1 = prob if has_const and lang in NO_CONSTS else own_names_judge(lang, meta, out1)
+                    if prob1:
+                        case.update({"type_mappings": {k: c["tm"][k]}, "typeshare.toml": toml_of({lang: {k: c["tm"][k]}}),
+                                     "found_with_type_mappings": c["tm"]})
+                        prob, out, named = prob1, out1, [m for m in named if m["rust"] == k]
+                        break
+            check.violation("%s with [%s.type_mappings] %s (keys %s name annotated items of the program): %s - a type mapping says how uses of a "
+                            "name are written, it does not un-share the item" % (lang, lang, json.dumps(case["type_mappings"]),
+                                                                                 [m["rust"] for m in named], prob),
+                            case=case, impl={"output": out}, failing_input=True)
+            break
+    # the same programs through the binary, the tables in a typeshare.toml
+    if not check.has_failing():
+        own_names_cli(check, cases)
+    # model vs implementation on all of them
+    names = set().union(*[l2.names_of(c["file"]) for c in cases])
+    mans = [l2.norm(a) for a in model([c["mreq"] for c in cases], names=names)]
+    for c, ma, ra in zip(cases, mans, rans):
+        if ma != ra:
+            check.count("own-names-config-model-differs")
+            d = corpus.describe(ma, ra)
+            check.violation("%s with [%s.type_mappings] %s naming the program's own items: generate_types differs from the model: %s"
+                            % (c["lang"], c["lang"], json.dumps(c["tm"]), d),
+                            case={"lang": c["lang"], "type_mappings": c["tm"], "source": c["text"], "multi_file": c["multi"]}, impl=ra, model=ma,
+                            failing_input=False, broken="correspondence L2 generate under type_mappings that name the program's own items "
+                                                        "(theorems TsV.C03.Capstone run_guarantees_*, TsV.C03_Emission.*)")
+            break
+
+
+def own_names_cli(check, cases):
+    """process level of own_names_config_part: 4 (thorough: 12) programs per language, the binary reads the tables from a file"""
+    per_lang = 12 if check.thorough else 4
+    picks = []
+    for lang in LANGS:
+        mine = [c for c in cases if c["lang"] == lang]
+        # prefer the programs whose table names an annotated item
+        mine.sort(key=lambda c: not any(m["annotated"] and m["rust"] in c["tm"] for m in c["meta"]))
+        picks += mine[:per_lang]
+    for idx, c in enumerate(picks):
+        lang, meta = c["lang"], c["meta"]
+        how = ["ancestor", "-c", "ancestor-deep", "folder"][(idx + idx // 4) % 4]
+        # the tables of the other five languages name every annotated item, or nothing of this program
+        others = {m["rust"]: "Elsewhere" for m in meta if m["annotated"]} if idx % 2 == 0 else {"Foreign": "Elsewhere"}
+        toml = toml_of({L: (c["tm"] if L == lang else others) for L in LANGS})
+        with Scratch() as sc:
+            sc.write("ws/models/src/lib.rs", c["text"])
+            args = ["--lang", lang] + lang_args(lang)
+            cwd = sc.path("ws/models/src") if how == "ancestor-deep" else sc.path("ws")
+            if how == "-c":
+                args += ["-c", sc.write("settings/mappings.toml", toml)]
+                sc.write("ws/typeshare.toml", toml_of({L: {} for L in LANGS}))      # a discoverable file without mappings: -c wins
+            else:
+                sc.write("ws/typeshare.toml", toml)
+            os.makedirs(sc.path("out"))
+            args += ["--output-folder", sc.path("out")] if how == "folder" else ["-o", sc.path("out/types." + EXT[lang])]
+            r = run_cli(args + [sc.path("ws")], cwd=cwd)
+            written = {fn: open(sc.path("out/" + fn), encoding="utf-8", errors="replace").read() for fn in sorted(os.listdir(sc.path("out")))}
+        check.saw(("own-names-cli", lang, how, toml, c["text"]), nontrivial=True)
+        check.count("own-names-cli-" + how)
+        if r["timed_out"] or r["rc"] not in (0, 1):
+            continue            # crashes are C07's business
+        out = "\n".join(written.values())
+        if any(v != k and v in out for k, v in c["tm"].items()):
+            check.count("own-names-cli-mapped-name-visible-in-output")
+        has_const = any(m["kind"] == "const" for m in meta)
+        case = {"lang": lang, "typeshare.toml": toml, "config_found_by": how, "files": {"ws/models/src/lib.rs": c["text"]},
+                "command": "typeshare " + " ".join(a.replace(sc.dir, ".") for a in args + [sc.path("ws")]),
+                "working_directory": cwd.replace(sc.dir, ".")}
+        if r["rc"] != 0:
+            check.count("own-names-cli-" + ("const-refused" if has_const and lang in NO_CONSTS else "error"))
+            continue            # reported
+        if has_const and lang in NO_CONSTS:
+            prob = "the annotated const `%s`, which %s cannot write, is neither written nor reported (exit status 0)" % (
+                next(m["rust"] for m in meta if m["kind"] == "const"), lang)
+        else:
+            prob = own_names_judge(lang, meta, out)
+        if prob:
+            check.violation("%s, typeshare.toml (%s) with [%s.type_mappings] %s: exit status 0, %s" % (lang, how, lang, json.dumps(c["tm"]), prob),
+                            case=case, impl={"rc": r["rc"], "stderr": r["err"][-800:], "written": written}, failing_input=True)
             return
 
 
